@@ -1,2 +1,324 @@
-import Moclo.Model.Entity
-/-! placeholder for C05 (theorems follow) -/
+import Moclo.Proofs.Narrow
+import Moclo.Props.C02
+import Moclo.Tables.Kits
+import Moclo.Tables.Enzymes
+/-!
+# C05 — a part type accepts exactly the records with its signature overhangs
+
+Model: `partStructure` (`AbstractPart.structure`) vs `genericStructure`, `ClassSpec.matchSeq`,
+`C02.report`; `characterize` as "first candidate whose `is_valid()` is true".
+`UniqueFit p w`: the signature-free structure fits the record in exactly one way (one start, one choice of
+run lengths) — what "exactly the two recognition sites" gives.  `matchesAt sig text`: the letters of `text`
+match the signature under IUPAC rules (`clsMatch`), so degenerate signatures such as `NNNN` are covered.
+-/
+namespace Moclo.C05
+open Moclo
+
+/-- the same class with another structure pattern -/
+def withPat (c : ClassSpec) (p : Pat) : ClassSpec := { c with pat := p }
+
+/-- **general form**: two structures with three groups that differ only in the fixed-width letters of
+groups 1 and 3, the second (`g1'`, `g3'`) at least as specific as the first.  If the first fits the record in
+exactly one way then the second accepts the record iff the first does and the texts of groups 1 and 3 match
+`g1'` and `g3'`; and then both report the same thing. -/
+theorem narrowed_accepts_iff {pre g1 g1' g2 g3 g3' suf : Pat} {k : Nat} (c : ClassSpec) (w : Word)
+    (hpre : markless pre) (hg2 : markless g2) (hsuf : markless suf)
+    (h1 : isFixed k g1 = true) (h3 : isFixed k g3 = true) (h1' : isFixed k g1' = true) (h3' : isFixed k g3' = true)
+    (hsub1 : ∀ ys, matchesAt (letters g1') ys → matchesAt (letters g1) ys)
+    (hsub3 : ∀ ys, matchesAt (letters g3') ys → matchesAt (letters g3) ys)
+    (hfit : UniqueFit (threeGroup pre g1 g2 g3 suf) w) :
+    let cG := withPat c (threeGroup pre g1 g2 g3 suf)
+    let cP := withPat c (threeGroup pre g1' g2 g3' suf)
+    (cP.isValid w = true ↔ cG.isValid w = true ∧
+      ∃ m, cG.matchSeq w = .ok m ∧ matchesAt (letters g1') (m.group w 1) ∧ matchesAt (letters g3') (m.group w 3)) ∧
+    (cP.isValid w = true → C02.report cP w = C02.report cG w) := by
+  intro cG cP
+  obtain ⟨i, ms, e, rel, hi, hrun, hrel, hrev, hsearch, huniq⟩ := search_of_uniqueFit hfit
+  have h3G : C02.ThreeGroups cG.pat := by
+    have := (relMatch_marks hrel).1
+    obtain ⟨a1, b2, hms, _⟩ := threeGroup_run hpre hg2 hsuf h1 h3 hrun
+    have hl : rel.reverse.length = 7 := by rw [hrev, hms]; rfl
+    simp only [List.length_reverse] at hl
+    show 6 ≤ nmarks (threeGroup pre g1 g2 g3 suf); omega
+  obtain ⟨a1, b2, hms, hle1, hle2, rpre, m1, rg2, m3, rsuf⟩ := threeGroup_run hpre hg2 hsuf h1 h3 hrun
+  have hwl := window_length w i (Nat.le_of_lt hi)
+  have hrs : rel.reverse = [a1, a1 + k, a1 + k, b2, b2, b2 + k, e] := by rw [hrev, hms]; rfl
+  have hebound : e ≤ w.length := by have := hrun.bounds.2.1; omega
+  -- the texts of groups 1 and 3 of the generic match
+  have hg := fun g hg => C02.hasGroup_of_three h3G hrel g hg
+  have grp1 : (⟨i :: rel.reverse.map (· + i)⟩ : Match).group w 1 = slice (window w i) a1 (a1 + k) := by
+    rw [match_group_view hi hrel 1 (hg 1 (by omega)), hrs]; simp [vgroup, rspan]
+  have grp3 : (⟨i :: rel.reverse.map (· + i)⟩ : Match).group w 3 = slice (window w i) b2 (b2 + k) := by
+    rw [match_group_view hi hrel 3 (hg 3 (by omega)), hrs]; simp [vgroup, rspan]
+  obtain ⟨_, w1', _⟩ := isFixed_spec h1'
+  obtain ⟨_, w3', _⟩ := isFixed_spec h3'
+  have sig1 : matchesAt (letters g1') (slice (window w i) a1 (a1 + k)) ↔ matchesAt (letters g1') ((window w i).drop a1) := by
+    unfold slice; rw [show a1 + k - a1 = k by omega]
+    exact matchesAt_take _ _ _ (by rw [letters_length, w1'])
+  have sig3 : matchesAt (letters g3') (slice (window w i) b2 (b2 + k)) ↔ matchesAt (letters g3') ((window w i).drop b2) := by
+    unfold slice; rw [show b2 + k - b2 = k by omega]
+    exact matchesAt_take _ _ _ (by rw [letters_length, w3'])
+  -- when the signature letters match, the narrowed structure has the very same unique fit
+  have key : matchesAt (letters g1') ((window w i).drop a1) → matchesAt (letters g3') ((window w i).drop b2) →
+      relMatch (threeGroup pre g1' g2 g3' suf) (window w i) = some rel ∧
+      search (threeGroup pre g1' g2 g3' suf) w true = some ⟨i :: rel.reverse.map (· + i)⟩ := by
+    intro s1 s3
+    have hP : Run (threeGroup pre g1' g2 g3' suf) (window w i) 0 ms e :=
+      (threeGroup_narrow hpre hg2 hsuf h1 h3 h1' h3' hsub1 hsub3).mpr ⟨hrun, a1, b2, hms, s1, s3⟩
+    obtain ⟨rel', hrel'⟩ := relMatch_isSome_of_run hP
+    obtain ⟨ms', e', hr', hrev'⟩ := relMatch_run hrel'
+    have hG' := ((threeGroup_narrow hpre hg2 hsuf h1 h3 h1' h3' hsub1 hsub3).mp hr').1
+    obtain ⟨_, e1, e2⟩ := huniq i ms' e' hi hG'
+    have : rel' = rel := by
+      have : rel'.reverse = rel.reverse := by rw [hrev', hrev, e1, e2]
+      simpa using congrArg List.reverse this
+    subst this
+    refine ⟨hrel', search_circ_first hi hrel' ?_⟩
+    intro j hj
+    cases hj' : relMatch (threeGroup pre g1' g2 g3' suf) (window w j) with
+    | none => rfl
+    | some r =>
+      obtain ⟨m2, e2', hr2, _⟩ := relMatch_run hj'
+      have hG2 := ((threeGroup_narrow hpre hg2 hsuf h1 h3 h1' h3' hsub1 hsub3).mp hr2).1
+      have := (huniq j m2 e2' (by omega) hG2).1
+      omega
+  -- and when the narrowed structure fits anywhere, it is at that fit with matching letters
+  have key2 : ∀ j rel', j < w.length → relMatch (threeGroup pre g1' g2 g3' suf) (window w j) = some rel' →
+      matchesAt (letters g1') ((window w i).drop a1) ∧ matchesAt (letters g3') ((window w i).drop b2) := by
+    intro j rel' hj hrel'
+    obtain ⟨ms', e', hr', _⟩ := relMatch_run hrel'
+    obtain ⟨hG', a1', b2', hms', s1, s3⟩ := (threeGroup_narrow hpre hg2 hsuf h1 h3 h1' h3' hsub1 hsub3).mp hr'
+    obtain ⟨ej, em, _⟩ := huniq j ms' e' hj hG'
+    subst ej
+    rw [em, hms] at hms'
+    simp only [List.cons.injEq, and_true] at hms'
+    obtain ⟨ea, _, _, eb, _⟩ := hms'
+    subst ea eb
+    exact ⟨s1, s3⟩
+  have repG := C02.report_of_view (c := cG) h3G hi hrel hsearch
+  have validG : cG.isValid w = true ↔ ¬ (validCuts c.geom (vgroup (window w i) rel.reverse 0) > 2) := by
+    unfold ClassSpec.isValid ClassSpec.matchSeq
+    rw [show cG.pat = threeGroup pre g1 g2 g3 suf from rfl, hsearch]
+    simp only []
+    rw [match_group_view hi hrel 0 (hg 0 (by omega))]
+    by_cases hc : validCuts c.geom (vgroup (window w i) rel.reverse 0) > 2
+    · have hc' : validCuts cG.geom (vgroup (window w i) rel.reverse 0) > 2 := hc
+      simp [hc, hc']
+    · have hc' : ¬ validCuts cG.geom (vgroup (window w i) rel.reverse 0) > 2 := hc
+      simp [hc, hc']
+  have matchG : ∀ m, cG.matchSeq w = .ok m → m = ⟨i :: rel.reverse.map (· + i)⟩ := by
+    intro m hm
+    unfold ClassSpec.matchSeq at hm
+    rw [show cG.pat = threeGroup pre g1 g2 g3 suf from rfl, hsearch] at hm
+    simp only [] at hm
+    split at hm
+    · cases hm
+    · simp only [Except.ok.injEq] at hm; exact hm.symm
+  constructor
+  · constructor
+    · intro hv
+      -- the narrowed class found a match somewhere
+      have hsP : ∃ mP, search (threeGroup pre g1' g2 g3' suf) w true = some mP := by
+        unfold ClassSpec.isValid ClassSpec.matchSeq at hv
+        rw [show cP.pat = threeGroup pre g1' g2 g3' suf from rfl] at hv
+        cases hsp : search (threeGroup pre g1' g2 g3' suf) w true with
+        | none => rw [hsp] at hv; simp at hv
+        | some mP => exact ⟨mP, rfl⟩
+      obtain ⟨mP, hmP⟩ := hsP
+      obtain ⟨j, rel', _, hjhi, hrel', _, _⟩ := search_spec hmP
+      have hjn : j < w.length := by simpa [searchHi] using hjhi
+      obtain ⟨s1, s3⟩ := key2 j rel' hjn (by simpa [textAt_circ] using hrel')
+      obtain ⟨hrelP, hsearchP⟩ := key s1 s3
+      have h3P : C02.ThreeGroups cP.pat := by
+        have := (relMatch_marks hrelP).1
+        have h7 : rel.length = 7 := by have := congrArg List.length hrs; simpa using this
+        show 6 ≤ nmarks (threeGroup pre g1' g2 g3' suf); omega
+      -- same view, hence the same illegal-site screen
+      have validP : cP.isValid w = true ↔ ¬ (validCuts c.geom (vgroup (window w i) rel.reverse 0) > 2) := by
+        unfold ClassSpec.isValid ClassSpec.matchSeq
+        rw [show cP.pat = threeGroup pre g1' g2 g3' suf from rfl, hsearchP]
+        simp only []
+        rw [match_group_view hi hrelP 0 (C02.hasGroup_of_three h3P hrelP 0 (by omega))]
+        by_cases hc : validCuts c.geom (vgroup (window w i) rel.reverse 0) > 2
+        · have hc' : validCuts cP.geom (vgroup (window w i) rel.reverse 0) > 2 := hc
+          simp [hc, hc']
+        · have hc' : ¬ validCuts cP.geom (vgroup (window w i) rel.reverse 0) > 2 := hc
+          simp [hc, hc']
+      have hvG : cG.isValid w = true := validG.mpr (validP.mp hv)
+      refine ⟨hvG, ⟨i :: rel.reverse.map (· + i)⟩, ?_, by rw [grp1]; exact sig1.mpr s1, by rw [grp3]; exact sig3.mpr s3⟩
+      obtain ⟨m, hm⟩ := (by
+        unfold ClassSpec.isValid at hvG
+        cases hmm : cG.matchSeq w with
+        | ok m => exact ⟨m, rfl⟩
+        | error e => rw [hmm] at hvG; simp at hvG : ∃ m, cG.matchSeq w = .ok m)
+      rw [hm, matchG m hm]
+    · rintro ⟨hvG, m, hm, s1, s3⟩
+      have hmeq := matchG m hm; subst hmeq
+      rw [grp1] at s1; rw [grp3] at s3
+      obtain ⟨hrelP, hsearchP⟩ := key (sig1.mp s1) (sig3.mp s3)
+      have h3P : C02.ThreeGroups cP.pat := by
+        have h7 : rel.length = 7 := by have := congrArg List.length hrs; simpa using this
+        have := (relMatch_marks hrelP).1
+        show 6 ≤ nmarks (threeGroup pre g1' g2 g3' suf); omega
+      unfold ClassSpec.isValid ClassSpec.matchSeq
+      rw [show cP.pat = threeGroup pre g1' g2 g3' suf from rfl, hsearchP]
+      simp only []
+      rw [match_group_view hi hrelP 0 (C02.hasGroup_of_three h3P hrelP 0 (by omega))]
+      have hc := validG.mp hvG
+      have hc' : ¬ validCuts cP.geom (vgroup (window w i) rel.reverse 0) > 2 := hc
+      simp [hc']
+  · intro hv
+    have hsP : ∃ mP, search (threeGroup pre g1' g2 g3' suf) w true = some mP := by
+      unfold ClassSpec.isValid ClassSpec.matchSeq at hv
+      rw [show cP.pat = threeGroup pre g1' g2 g3' suf from rfl] at hv
+      cases hsp : search (threeGroup pre g1' g2 g3' suf) w true with
+      | none => rw [hsp] at hv; simp at hv
+      | some mP => exact ⟨mP, rfl⟩
+    obtain ⟨mP, hmP⟩ := hsP
+    obtain ⟨j, rel', _, hjhi, hrel', _, _⟩ := search_spec hmP
+    have hjn : j < w.length := by simpa [searchHi] using hjhi
+    obtain ⟨s1, s3⟩ := key2 j rel' hjn (by simpa [textAt_circ] using hrel')
+    obtain ⟨hrelP, hsearchP⟩ := key s1 s3
+    have h3P : C02.ThreeGroups cP.pat := by
+      have h7 : rel.length = 7 := by have := congrArg List.length hrs; simpa using this
+      have := (relMatch_marks hrelP).1
+      show 6 ≤ nmarks (threeGroup pre g1' g2 g3' suf); omega
+    rw [C02.report_of_view (c := cP) h3P hi hrelP hsearchP, repG]
+    rfl
+
+/-! ## the generic and the signature-typed structures are such a pair -/
+
+theorem markless_lits (s : List Nt) : markless (lits s) := by
+  intro t ht; simp only [lits, List.mem_map] at ht; obtain ⟨_, _, rfl⟩ := ht; rfl
+
+theorem markless_nRun (n : Nat) : markless (nRun n) := by
+  intro t ht; simp only [nRun, List.mem_replicate] at ht; rw [ht.2]; rfl
+
+theorem markless_append {a b : Pat} (ha : markless a) (hb : markless b) : markless (a ++ b) := by
+  intro t ht; rcases List.mem_append.mp ht with h | h
+  · exact ha t h
+  · exact hb t h
+
+theorem isFixed_nRun (k : Nat) : isFixed k (nRun k) = true := by
+  simp [isFixed, nRun]
+
+theorem isFixed_lits (s : List Nt) : isFixed s.length (lits s) = true := by
+  simp [isFixed, lits]
+
+theorem letters_nRun (k : Nat) : letters (nRun k) = List.replicate k .N := by
+  induction k with
+  | zero => rfl
+  | succ n ih => simp [nRun, List.replicate_succ, letters] at ih ⊢; exact ih
+
+/-- a signature is at least as specific as the wildcard overhang `N^k` -/
+theorem sig_narrows (s : List Nt) (ys : Word) (h : matchesAt (letters (lits s)) ys) :
+    matchesAt (letters (nRun s.length)) ys := by
+  rw [letters_lits] at h
+  rw [letters_nRun]
+  obtain ⟨h1, h2⟩ := h
+  refine ⟨by simpa using h1, fun j hj hj' => ?_⟩
+  simp only [List.length_replicate] at hj
+  have := h2 j hj hj'
+  simp only [List.getElem_replicate]
+  exact clsMatch_sub_N _ _ this
+
+/-- the pieces around the overhang groups, shared by the generic and the signature-typed structure -/
+def preOf : Kind → Geom → Pat
+  | .module, g => lits g.site ++ nRun g.off
+  | .vector, _ => [.cls .N]
+def midOf : Kind → Geom → Pat
+  | .module, _ => [.cls .N, .star .N true, .cls .N]
+  | .vector, g => nRun g.off ++ lits (rcNt g.site) ++ [.star .N true] ++ lits g.site ++ nRun g.off
+def sufOf : Kind → Geom → Pat
+  | .module, g => nRun g.off ++ lits (rcNt g.site)
+  | .vector, _ => [.cls .N]
+
+theorem generic_eq (kind : Kind) (g : Geom) :
+    genericStructure kind g = threeGroup (preOf kind g) (nRun g.k) (midOf kind g) (nRun g.k) (sufOf kind g) := by
+  cases kind <;> simp [genericStructure, moduleStructure, vectorStructure, threeGroup, preOf, midOf, sufOf, List.append_assoc]
+
+/-- group 1 carries the upstream signature of a module part, the downstream one of a vector part -/
+def sig1 : Kind → List Nt → List Nt → List Nt
+  | .module, up, _ => up
+  | .vector, _, down => down
+def sig3 : Kind → List Nt → List Nt → List Nt
+  | .module, _, down => down
+  | .vector, up, _ => up
+
+theorem part_eq (kind : Kind) (g : Geom) (up down : List Nt) :
+    partStructure kind g up down =
+      threeGroup (preOf kind g) (lits (sig1 kind up down)) (midOf kind g) (lits (sig3 kind up down)) (sufOf kind g) := by
+  cases kind <;> simp [partStructure, modulePartStructure, vectorPartStructure, threeGroup, preOf, midOf, sufOf, sig1,
+    sig3, List.append_assoc]
+
+theorem pieces_markless (kind : Kind) (g : Geom) :
+    markless (preOf kind g) ∧ markless (midOf kind g) ∧ markless (sufOf kind g) := by
+  have one : ∀ t : Tok, t.isMark = false → markless [t] := by
+    intro t ht x hx; simp at hx; subst hx; exact ht
+  cases kind
+  · exact ⟨markless_append (markless_lits _) (markless_nRun _),
+      by intro t ht; simp [midOf] at ht; rcases ht with rfl | rfl | rfl <;> rfl,
+      markless_append (markless_nRun _) (markless_lits _)⟩
+  · refine ⟨one _ rfl, ?_, one _ rfl⟩
+    exact markless_append (markless_append (markless_append (markless_append (markless_nRun _) (markless_lits _))
+      (one _ rfl)) (markless_lits _)) (markless_nRun _)
+
+/-- **a part type accepts exactly the records with its signature overhangs**: for every geometry, every
+signature of overhang length (degenerate ones included) and every record the signature-free structure fits in
+exactly one way, the part class accepts the record iff the signature-free class accepts it and the overhangs it
+reports match the signature under IUPAC rules — upstream signature against the upstream overhang, downstream
+against the downstream one, for modules and vectors alike; and then both classes report the same overhangs,
+target and placeholder -/
+theorem part_accepts_iff (kind : Kind) (g : Geom) (up down : List Nt) (hu : up.length = g.k) (hd : down.length = g.k)
+    (w : Word) (hfit : UniqueFit (genericStructure kind g) w) :
+    let cG : ClassSpec := { kind := kind, pat := genericStructure kind g, geom := g }
+    let cP : ClassSpec := { kind := kind, pat := partStructure kind g up down, geom := g }
+    (cP.isValid w = true ↔ cG.isValid w = true ∧
+      ∃ m, cG.matchSeq w = .ok m ∧ matchesAt up (m.group w cG.upGroup) ∧ matchesAt down (m.group w cG.downGroup)) ∧
+    (cP.isValid w = true → C02.report cP w = C02.report cG w) := by
+  intro cG cP
+  obtain ⟨mp, mm, ms⟩ := pieces_markless kind g
+  have hs1 : (sig1 kind up down).length = g.k := by cases kind <;> simp [sig1, hu, hd]
+  have hs3 : (sig3 kind up down).length = g.k := by cases kind <;> simp [sig3, hu, hd]
+  rw [generic_eq] at hfit
+  have main := narrowed_accepts_iff (k := g.k) (g1 := nRun g.k) (g3 := nRun g.k)
+    (g1' := lits (sig1 kind up down)) (g3' := lits (sig3 kind up down))
+    ({ kind := kind, pat := [], geom := g } : ClassSpec) w mp mm ms
+    (isFixed_nRun _) (isFixed_nRun _) (by rw [← hs1]; exact isFixed_lits _) (by rw [← hs3]; exact isFixed_lits _)
+    (by intro ys h; have := sig_narrows _ ys h; rwa [hs1] at this)
+    (by intro ys h; have := sig_narrows _ ys h; rwa [hs3] at this) hfit
+  simp only [withPat, ← generic_eq, ← part_eq, letters_lits] at main
+  obtain ⟨m1, m2⟩ := main
+  refine ⟨?_, m2⟩
+  rw [m1]
+  cases kind
+  · simp only [sig1, sig3, ClassSpec.upGroup, ClassSpec.downGroup]
+    exact Iff.rfl
+  · simp only [sig1, sig3, ClassSpec.upGroup, ClassSpec.downGroup]
+    constructor
+    · rintro ⟨a, m, b, c, d⟩; exact ⟨a, m, b, d, c⟩
+    · rintro ⟨a, m, b, c, d⟩; exact ⟨a, m, b, d, c⟩
+
+/-- the signature-derived classes of the kits carry exactly this part structure, the plain module / vector
+classes the generic one (as the structures are now: kernel-checked on the regenerated table); the same for
+user-defined signatures over every supported enzyme -/
+theorem kit_structures_derived : ∀ r ∈ Generated.kits, Tables.KitRow.derivedOk r = true :=
+  fun r hr => List.all_eq_true.mp Tables.kits_derived r hr
+
+/-! ## automatic characterisation -/
+
+/-- `characterize` returns a candidate type that accepts the record — the first in candidate order — and fails
+(`RuntimeError`) exactly when no candidate accepts it -/
+theorem characterize_spec (cands : List ClassSpec) (w : Word) :
+    (∀ i, characterize cands w = some i →
+      ∃ h : i < cands.length, (cands[i]).isValid w = true ∧ ∀ j (hj : j < i), (cands[j]'(by omega)).isValid w = false) ∧
+    (characterize cands w = none ↔ ∀ c ∈ cands, c.isValid w = false) := by
+  unfold characterize
+  constructor
+  · intro i hi
+    rw [List.findIdx?_eq_some_iff_getElem] at hi
+    obtain ⟨h, h1, h2⟩ := hi
+    exact ⟨h, h1, fun j hj => by simpa using h2 j hj⟩
+  · rw [List.findIdx?_eq_none_iff]
+
+end Moclo.C05
